@@ -115,6 +115,78 @@ pub fn start_watchdog(secs: u64) {
         .expect("spawn watchdog");
 }
 
+extern "C" {
+    fn signal(signum: i32, handler: usize) -> usize;
+}
+
+extern "C" fn on_fatal_signal(sig: i32) {
+    // async-signal-safe: no allocation, only write/open/_exit
+    let (ptr, len, fam, entry) = CUR.try_with(|c| c.get()).unwrap_or((std::ptr::null(), 0, 0, 0));
+    crash_report(sig, ptr, len, fam, entry);
+}
+
+/// Turn a process-level crash (abort from a non-unwinding panic such as std's unsafe-precondition
+/// checks, SIGSEGV, SIGBUS, SIGILL) into an attributed report: the in-flight input of the crashing
+/// thread is written as a replay file, a CRASH line is printed and the process exits with status 80.
+pub fn install_crash_handler() {
+    if cfg!(miri) {
+        return;
+    }
+    unsafe {
+        for s in [6, 11, 7, 4] {
+            signal(s, on_fatal_signal as usize);
+        }
+    }
+}
+
+fn crash_report(sig: i32, ptr: *const u8, len: usize, fam: u8, entry: u32) -> ! {
+    let prop = unsafe { cstr(&*std::ptr::addr_of!(PROP)) };
+    let dir = unsafe { cstr(&*std::ptr::addr_of!(REPLAY_DIR)) };
+    let mut path = Buf { b: [0; 8192], n: 0 };
+    path.push(dir);
+    path.push(b"/");
+    path.push(prop);
+    path.push(b"-crash-");
+    path.num(unsafe { getpid() } as usize);
+    path.push(b".replay\0");
+    let mut body = Buf { b: [0; 8192], n: 0 };
+    body.push(b"property=");
+    body.push(prop);
+    body.push(b"\nprofile=crash-handler\nsig=");
+    body.push(prop);
+    body.push(b":process-crash:signal");
+    body.num(sig as usize);
+    body.push(b"\nwhat=the process was killed by signal ");
+    body.num(sig as usize);
+    body.push(b" during a monitored call (abort from a non-unwinding panic / unsafe-precondition check, or a memory fault)\nkind=bytes\nfamily=");
+    body.num(fam as usize);
+    body.push(b"\nparam.entry=");
+    body.num(entry as usize);
+    body.push(b"\nbytes=");
+    if !ptr.is_null() {
+        let s = unsafe { std::slice::from_raw_parts(ptr, len.min(3000)) };
+        body.hex(s);
+    }
+    body.push(b"\n");
+    unsafe {
+        let fd = open(path.b.as_ptr(), 0o1101, 0o644);
+        if fd >= 0 {
+            write(fd, body.b.as_ptr(), body.n);
+            close(fd);
+        }
+        let mut line = Buf { b: [0; 8192], n: 0 };
+        line.push(b"CRASH property=");
+        line.push(prop);
+        line.push(b" signal=");
+        line.num(sig as usize);
+        line.push(b" replay=");
+        line.push(&path.b[..path.n - 1]);
+        line.push(b"\n");
+        write(1, line.b.as_ptr(), line.n);
+        _exit(80);
+    }
+}
+
 fn hang(ptr: *const u8, len: usize, fam: u8, entry: u32) -> ! {
     let prop = unsafe { cstr(&*std::ptr::addr_of!(PROP)) };
     let dir = unsafe { cstr(&*std::ptr::addr_of!(REPLAY_DIR)) };
